@@ -255,10 +255,16 @@ pub fn run(tier: Tier) -> i32 {
     ev.sample(json!({"topic":"a/b","filter":"a/+","reference":ref_matches("a/b","a/+")}));
     ev.sample(json!({"topic":"é/a","filter":"+/#","reference":ref_matches("é/a","+/#")}));
     ev.sample(json!({"topic":"$a","filter":"#","reference":ref_matches("$a","#")}));
-    ev.assumptions = vec![
+    let grid_assumptions: Vec<String> = vec![
         "alphabet {a,b,/,+,#,$,é} (plus A and 中 in the 9-symbol grid); strings longer than the bound are not enumerated".into(),
         "reference implementation of the MQTT matching rules in engine/src/e4_topicgrid.rs".into(),
     ];
+    // the broker's effective routing (DataLog::matches and its per-topic cache) on the stepped
+    // router: delivery must follow the same rules, whatever the order of subscriptions and
+    // publishes
+    crate::e1::run::explore_plans("C12", tier, &reporter, &mut ev, 0.5);
+    ev.assumptions.extend(grid_assumptions);
+    ev.assumptions.push("routing part: 15 filter shapes x 5 topics on the real router (E1), all orders of subscribe/unsubscribe/publish up to depth 4 (quick) / 5 (thorough)".into());
     ev.violations = reporter.new_violations();
     let code = reporter.finish();
     ev.write();
